@@ -3,11 +3,13 @@ package config
 import (
 	"crypto/md5"
 	"encoding/hex"
+	"fmt"
 	"io"
 	"lunar/engine/utils/environment"
 	"lunar/engine/verifhook"
 	"os"
 	"path/filepath"
+	"strings"
 )
 
 const (
@@ -146,18 +148,40 @@ func (fs *FileSystemOperation) CleanMetricsConfigFile() error {
 }
 
 func (fs *FileSystemOperation) SaveFlow(fileName string, content []byte) error {
-	filePath := filepath.Join(environment.GetStreamsFlowsDirectory(), fileName)
+	filePath, err := filePathInDirectory(environment.GetStreamsFlowsDirectory(), fileName)
+	if err != nil {
+		return err
+	}
 	return fs.storeFileOnDisk(filePath, content)
 }
 
 func (fs *FileSystemOperation) SaveQuota(fileName string, content []byte) error {
-	filePath := filepath.Join(environment.GetQuotasDirectory(), fileName)
+	filePath, err := filePathInDirectory(environment.GetQuotasDirectory(), fileName)
+	if err != nil {
+		return err
+	}
 	return fs.storeFileOnDisk(filePath, content)
 }
 
 func (fs *FileSystemOperation) SavePathParams(fileName string, content []byte) error {
-	filePath := filepath.Join(environment.GetPathParamsDirectory(), fileName)
+	filePath, err := filePathInDirectory(environment.GetPathParamsDirectory(), fileName)
+	if err != nil {
+		return err
+	}
 	return fs.storeFileOnDisk(filePath, content)
+}
+
+// filePathInDirectory joins fileName to dir and makes sure the result is a
+// file below dir. A name such as "../x.yaml" would otherwise be written to a
+// place that is neither backed up nor restored when the update fails.
+func filePathInDirectory(dir, fileName string) (string, error) {
+	filePath := filepath.Join(dir, fileName)
+	rel, err := filepath.Rel(dir, filePath)
+	if err != nil || rel == "." || rel == ".." ||
+		strings.HasPrefix(rel, ".."+string(filepath.Separator)) {
+		return "", fmt.Errorf("file name %q is not inside directory %q", fileName, dir)
+	}
+	return filePath, nil
 }
 
 func (fs *FileSystemOperation) SaveGatewayConfig(content []byte) error {
